@@ -104,6 +104,13 @@ impl Config {
     pub fn get_overridden(self, target_language: &str) -> Self {
         let mut out = self.clone();
 
+        // `py-nanobind` is an alias for the nanobind backend; its settings live under `nanobind.`
+        let target_language = if target_language == "py-nanobind" {
+            "nanobind"
+        } else {
+            target_language
+        };
+
         // Look for a match of language_name.some_value in a potential key.
         let m = format!("{}.", target_language);
         for (k, v) in out.language_overrides.iter() {
